@@ -14,6 +14,8 @@ CONSTANTS NJobs,       \* tasks the environment may feed (numbered in feed order
           Kinds,       \* how a task may end: subset of {"ok","raise","baseexc","unpicklable","unpicklable_deep","unpicklable_badrepr","memover"}
           Signals,     \* BOOLEAN: a termination signal may arrive at any blocking point
           Cancels,     \* BOOLEAN: the parent may cancel a job before its ACK is processed
+          Refusals,    \* BOOLEAN: the accept callback of every even-numbered job raises (the parent
+                       \* refuses the job: NACK under the handshake, accepted as usual without it)
           DevSwallow   \* pinned code (F2): SystemExit raised by the signal handler inside task
                        \* code is treated as the task's error and the loop goes on
 
@@ -87,13 +89,14 @@ Cancel(j) ==  \* ApplyResult._cancel() before the parent has processed the job's
     /\ UNCHANGED <<pc, cur, completed, inq, fed, synq, out, rd, counter, sleeps, code, ret, status,
                    onexit, executed, nacked, termreq, now>>
 
+Refused(j) == Refusals /\ j % 2 = 0
 (* the parent consumes the next message of the worker *)
 ParentRecv ==
     /\ rd < Len(out)
     /\ LET m == out[rd + 1] IN
         /\ rd' = rd + 1
         /\ IF m.t = "ACK" /\ Synack
-             THEN synq' = Append(synq, IF m.j \in cancelled THEN "NACK" ELSE "ACK")
+             THEN synq' = Append(synq, IF m.j \in cancelled \/ Refused(m.j) THEN "NACK" ELSE "ACK")
              ELSE synq' = synq
         /\ counter' = IF m.t = "READY" THEN counter + 1 ELSE counter
         /\ act' = [name |-> "ParentRecv", t |-> m.t, j |-> IF m.t = "DEATH" THEN 0 ELSE m.j]
@@ -237,7 +240,10 @@ ResultOnlyAfterAccept == \A k \in 1..Len(out) : out[k].t = "READY" =>
 Executed == {executed[i] : i \in 1..Len(executed)}
 NackHonoured == /\ \A j \in nacked : j \notin Executed
                 /\ \A j \in nacked : ~\E k \in 1..Len(out) : out[k].t = "READY" /\ out[k].j = j
-CancelRefused == [][act'.name = "Syn" /\ cur \in cancelled => act'.ans = "NACK"]_vars
+CancelRefused == [][act'.name = "Syn" /\ (cur \in cancelled \/ Refused(cur)) => act'.ans = "NACK"]_vars
+(* under the handshake every acceptance the parent has processed got exactly one answer *)
+AcksAnswered == Synack => Cardinality({k \in 1..rd : out[k].t = "ACK"})
+                             = Len(synq) + Len(executed) + Cardinality(nacked)
 CountsExecutedOnly == completed = Len(executed) - (IF pc = "run" THEN 1 ELSE 0)
 (* quota *)
 QuotaRespected == Quota # 0 => completed <= Quota
